@@ -162,9 +162,19 @@ def is_err(res):
     return (not isinstance(res, Panic)) and res.vname == 'Err'
 
 
-def sym_msg(W, enum_ty, vname, crate=None, prefix='m', overrides=None):
-    """a message of the given variant with every field symbolic (vec fields: length 1)."""
+def has_vec_field(W, enum_ty, vname, crate=None):
+    td = W.I.types.lookup(enum_ty, crate or W.crate)
+    vn, vk, vf = td.variants[td.variant_index(vname)]
+    return any('Vec<' in fty for _, fty in vf)
+
+
+def sym_msg(W, enum_ty, vname, crate=None, prefix='m', overrides=None, veclen=1):
+    """a message of the given variant with every field symbolic (vec fields: the given length)."""
     I = W.I
+    from smir.symval import SymCtx
+
+    class Opts(SymCtx):
+        vec_len = veclen
     td = I.types.lookup(enum_ty, crate or W.crate)
     vi = td.variant_index(vname)
     vn, vk, vf = td.variants[vi]
@@ -173,7 +183,7 @@ def sym_msg(W, enum_ty, vname, crate=None, prefix='m', overrides=None):
         if overrides and fname in overrides:
             fields.append(overrides[fname])
         else:
-            fields.append(fresh_value(I, W.st, fty, td.crate, '%s_%s_%s' % (prefix, vn, fname if fname else i)))
+            fields.append(fresh_value(I, W.st, fty, td.crate, '%s_%s_%s' % (prefix, vn, fname if fname else i), 0, Opts))
     return Agg(td.name, fields, vi, vn)
 
 
